@@ -61,6 +61,7 @@ type SolveOpts struct {
 	Parallel int
 	Seed     int
 	Keep     bool
+	NoSplit  bool // do not try the case split over merged control-flow paths on undecided obligations
 }
 
 func runSolver(ctx context.Context, s Solver, file string, timeout int, seed int) (string, float64, string) {
@@ -157,6 +158,9 @@ func Discharge(o *Obligation, opts SolveOpts) *Result {
 		}
 	default:
 		res.Status = "undecided"
+		if !opts.NoSplit {
+			splitByPath(o, q, file, opts, res)
+		}
 	}
 	if !opts.Keep && (res.Status == "discharged" || res.Status == "cover-ok") {
 		_ = os.Remove(file)
@@ -191,5 +195,139 @@ func DischargeAll(obls []*Obligation, opts SolveOpts) []*Result {
 		}(i, o)
 	}
 	wg.Wait()
+	return out
+}
+
+// splitByPath: an undecided obligation whose guard is a merged block condition bc = (or c1 .. cn) is decided
+// path by path: facts /\ not goal /\ ci for every i. Sound and complete w.r.t. the original query because
+// bc <=> (or ci) is itself one of the facts and the negated goal implies bc. All parts unsat => discharged;
+// some part sat => that model satisfies the original query too => failed (model kept for replay).
+func splitByPath(o *Obligation, q, file string, opts SolveOpts, res *Result) {
+	cond := strings.TrimSpace(o.Cond)
+	if !strings.HasPrefix(cond, "bc!") || strings.ContainsAny(cond, " ()") {
+		return
+	}
+	def := "(assert (= " + cond + " (or "
+	i := strings.Index(q, def)
+	if i < 0 {
+		return
+	}
+	rest := q[i+len(def):]
+	if nl := strings.IndexByte(rest, '\n'); nl >= 0 {
+		rest = rest[:nl]
+	}
+	parts := topLevelTerms(rest)
+	if len(parts) < 2 || len(parts) > 16 {
+		return
+	}
+	type sub struct {
+		ans, by string
+		t       float64
+	}
+	subs := make([]sub, len(parts))
+	var wg sync.WaitGroup
+	base := strings.TrimSuffix(strings.TrimSpace(q), "(check-sat)")
+	for k, c := range parts {
+		wg.Add(1)
+		go func(k int, c string) {
+			defer wg.Done()
+			f := fmt.Sprintf("%s.split%d.smt2", strings.TrimSuffix(file, ".smt2"), k)
+			_ = os.WriteFile(f, []byte(base+"(assert "+c+")\n(check-sat)\n"), 0644)
+			ctx, cancel := context.WithCancel(context.Background())
+			defer cancel()
+			type ans struct {
+				s, a string
+				t    float64
+			}
+			ch := make(chan ans, len(Solvers))
+			for _, s := range Solvers {
+				go func(s Solver) {
+					a, t, _ := runSolver(ctx, s, f, opts.Timeout, opts.Seed)
+					ch <- ans{s.Name, a, t}
+				}(s)
+			}
+			for j := 0; j < len(Solvers); j++ {
+				a := <-ch
+				if a.a == "sat" || a.a == "unsat" {
+					subs[k] = sub{a.a, a.s, a.t}
+					cancel()
+					break
+				}
+			}
+			if subs[k].ans == "unsat" && !opts.Keep {
+				_ = os.Remove(f)
+			}
+			if subs[k].ans == "sat" {
+				res.QueryFile = f
+			}
+		}(k, c)
+	}
+	wg.Wait()
+	all := true
+	for k, sb := range subs {
+		res.Answers[fmt.Sprintf("path%d", k)] = sb.ans + ":" + sb.by
+		if sb.ans == "" {
+			res.Answers[fmt.Sprintf("path%d", k)] = "timeout"
+		}
+		if sb.ans == "sat" {
+			res.Status, res.By = "failed", "path-split:"+sb.by
+			return
+		}
+		if sb.ans != "unsat" {
+			all = false
+		}
+	}
+	if all {
+		res.Status, res.By = "discharged", fmt.Sprintf("path-split/%d:%s", len(parts), subs[0].by)
+	}
+}
+
+// topLevelTerms splits "t1 t2 ... tn)))" into its first-level s-expressions, stopping at the closing parenthesis
+// of the enclosing term. String literals ("" escapes a quote) are respected.
+func topLevelTerms(s string) []string {
+	var out []string
+	depth, start, inStr := 0, -1, false
+	for i := 0; i < len(s); i++ {
+		c := s[i]
+		if inStr {
+			if c == '"' {
+				inStr = false
+			}
+			continue
+		}
+		switch {
+		case c == '"':
+			inStr = true
+			if start < 0 {
+				start = i
+			}
+		case c == '(':
+			if start < 0 {
+				start = i
+			}
+			depth++
+		case c == ')':
+			if depth == 0 {
+				if start >= 0 {
+					out = append(out, s[start:i])
+				}
+				return out
+			}
+			depth--
+			if depth == 0 {
+				out = append(out, s[start:i+1])
+				start = -1
+			}
+		case c == ' ':
+			if depth == 0 && start >= 0 {
+				out = append(out, s[start:i])
+				start = -1
+			}
+		default:
+			if start < 0 {
+				start = i
+			}
+		}
+	}
 	return out
 }
